@@ -13,7 +13,7 @@ The harness prints `<profile> <result>`; the oracle prints `<model rel> ## <mode
 import itertools
 
 ID = "C04"
-GEN_TAGS = []
+GEN_TAGS = ["MerkleGen"]
 PROOF_TARGETS = ["proofs/MerkleProofs.vo"]
 PROPS_FILE = "props/C04.v"
 EXTRACT = "extract/ExtractC04.vo"
